@@ -8,6 +8,7 @@
 #![allow(dead_code)]
 
 mod big;
+mod capture;
 mod engine;
 mod galloc;
 mod groups;
